@@ -234,3 +234,44 @@ Proof.
   intros H. inversion H; subst. cbn [mkw w_data w_log writer_of app w_len].
   split; [reflexivity|]. rewrite len_app. apply msg_log_inside.
 Qed.
+
+(** * the AVP header the specification encoder emits *)
+Lemma header_octet_bits l h : l < 1024 -> h < 2 ->
+  let o := 64 * (l / 256) + (2 * h + 1) in
+  N.testbit o 0 = true /\ N.testbit o 1 = (h =? 1) /\
+  N.testbit o 2 = false /\ N.testbit o 3 = false /\ N.testbit o 4 = false /\ N.testbit o 5 = false /\
+  o / 64 = l / 256 /\ o < 256.
+Proof.
+  intros Hl Hh.
+  assert (E : forallb (fun l => forallb (fun h =>
+     let o := 64 * (l / 256) + (2 * h + 1) in
+     N.testbit o 0 && Bool.eqb (N.testbit o 1) (h =? 1) && negb (N.testbit o 2) && negb (N.testbit o 3)
+     && negb (N.testbit o 4) && negb (N.testbit o 5) && (o / 64 =? l / 256) && (o <? 256))
+     (upto 2)) (upto 1024) = true) by (vm_compute; reflexivity).
+  pose proof (forall_upto _ _ E l Hl) as E1. cbv beta in E1.
+  pose proof (forall_upto _ _ E1 h Hh) as E2. cbv beta zeta in E2.
+  repeat (apply andb_prop in E2; destruct E2 as [E2 ?]).
+  repeat split; try assumption;
+    try (apply negb_true_iff; assumption);
+    try (apply Bool.eqb_prop; assumption);
+    try (apply N.eqb_eq; assumption); try (apply N.ltb_lt; assumption).
+Qed.
+
+Theorem enc_avp_header a : avp_fits a = true ->
+  exists o1 rest, s_enc_avp a = o1 :: (avp_total a mod 256) :: 0 :: 0 :: rest /\
+    rest = be16 (attr_type a) ++ s_value a /\
+    N.testbit o1 0 = true /\                       (* M bit set *)
+    N.testbit o1 1 = is_hidden a /\                (* H bit only on hidden AVPs *)
+    N.testbit o1 2 = false /\ N.testbit o1 3 = false /\ N.testbit o1 4 = false /\ N.testbit o1 5 = false /\
+    256 * (o1 / 64) + avp_total a mod 256 = avp_total a.   (* the 10-bit length *)
+Proof.
+  intros F. unfold avp_fits in F. apply N.leb_le in F.
+  eexists. eexists. split; [reflexivity|]. split; [reflexivity|].
+  destruct (is_hidden a).
+  - destruct (header_octet_bits (avp_total a) 1 ltac:(lia) ltac:(lia)) as (B0 & B1 & B2 & B3 & B4 & B5 & D & _).
+    change (2 * 1 + 1) with 3 in *. repeat split; try assumption.
+    rewrite D. pose proof (N.div_mod (avp_total a) 256 ltac:(lia)). lia.
+  - destruct (header_octet_bits (avp_total a) 0 ltac:(lia) ltac:(lia)) as (B0 & B1 & B2 & B3 & B4 & B5 & D & _).
+    change (2 * 0 + 1) with 1 in *. repeat split; try assumption.
+    rewrite D. pose proof (N.div_mod (avp_total a) 256 ltac:(lia)). lia.
+Qed.
